@@ -365,7 +365,8 @@ def parse_real(lines):
             r["export"] = "NOREAD" if l == "X NOREAD" else (None if l == "X -" else [int(x) for x in l[2:].split(",")])
         elif l.startswith("V "):
             p = l.split()
-            r["valid"], r["clause"] = p[1] == "1", int(p[2])
+            if p[1] != "SKIPPED":
+                r["valid"], r["clause"] = p[1] == "1", int(p[2])
         elif l.startswith("T "):
             r["tree"] = l[2:]
         elif l.startswith("N "):
@@ -410,9 +411,13 @@ def check_real(spec, data, res, pyimg, pybad):
     # validity verdicts
     if not res["valid"]:
         bad.append("extracted valid_image = false (first failing clause: %s)" % CLAUSES.get(res["clause"], res["clause"]))
-    if res["valid"] != (not pybad):
+    vfull = res.get("valid_full")
+    if vfull is None and res["valid"] != (not pybad):
         bad.append("valid_image (%s) and the Python validator (%s) disagree"
                    % (res["valid"], "; ".join(pybad[:2]) if pybad else "no violation"))
+    if vfull is not None and vfull != (not pybad):
+        bad.append("valid_image_full (%s) and the Python validator (%s) disagree"
+                   % (vfull, "; ".join(pybad[:2]) if pybad else "no violation"))
     if res["tree"] == "SKIPPED":
         return bad
     if res["tree"] == "NOREAD":
@@ -488,13 +493,15 @@ def check_real(spec, data, res, pyimg, pybad):
 def real_job(args):
     """one packer run + extracted reader + python decoder (worker process)"""
     import shutil
-    spec, tools, drv, d, budget = args
+    spec, tools, drv, d, budget = args[:5]
+    drv_valid, index, tier = (args[5:] + (None, 0, "quick"))[:3]
     sys.path.insert(0, os.path.dirname(os.path.abspath(__file__)))
     import toolgen
     from vlib import sqfsimg as S
     import validate_ext as VE
+    import valid_stage as VS
     t0 = time.time()
-    out = dict(rc=None, bad=[], stats=None, tree_read=False, t=0.0)
+    out = dict(rc=None, bad=[], stats=None, tree_read=False, t=0.0, oracle=[], vfull=None)
     try:
         rc, err, data = toolgen.run_spec(spec, tools, d)
     except subprocess.TimeoutExpired:
@@ -514,8 +521,21 @@ def real_job(args):
     inodes = int.from_bytes(data[4:8], "little")
     itbl = int.from_bytes(data[72:80], "little") - int.from_bytes(data[64:72], "little")
     want_tree = inodes * max(itbl, 1) * 3 <= budget          # compressed size: the stream is about 3 times that
-    rc2, lines, err2 = run_proc([drv], "R %s %d %d\n" % (os.path.join(d, "out.sqfs"), spec["devblk"], 1 if want_tree else 0),
-                                timeout=900)
+    vf = None
+    if drv_valid:
+        # valid_image_full (coq/ImgValid) implies valid_image: the R command leaves the verdict to this driver
+        vf = VS.check_image(drv_valid, d, data, spec, pyimg, pybad, S, VE, index=index,
+                            max_mutations=3 if tier == "quick" else 6, max_base_seconds=0.7 if tier == "quick" else 4.0)
+        if vf["valid"] is None:
+            vf = None
+    rc2, lines, err2 = run_proc([drv], "R %s %d %d%s\n" % (os.path.join(d, "out.sqfs"), spec["devblk"], 1 if want_tree else 0,
+                                                          " novalid" if vf else ""), timeout=900)
+    if vf:
+        # first_failure_full reports Image.ValidModel.first_failure (1 .. 12) when that is not 0
+        lines = [("V %d %d" % (1 if (vf["clause"] == 0 or vf["clause"] >= 13) else 0, vf["clause"] if vf["clause"] <= 12 else 0))
+                 if l == "V SKIPPED" else l for l in lines]
+        out["vfull"] = dict(valid=vf["valid"], clause=vf["clause"], mutations=vf["mutations"], t=round(vf["t"], 2))
+        out["oracle"] = vf["oracle_problems"]
     if rc2 != 0 or "END" not in lines:
         out["bad"] = ["extracted reader driver failed (rc=%s): %s" % (rc2, err2[-300:])]
     elif pyimg is None:
@@ -525,7 +545,8 @@ def real_job(args):
                      ["the python decoder rejects the image (%s) but the extracted valid_image accepts it" % (pybad[0],)]
     else:
         res = parse_real(lines)
-        out["bad"] = check_real(spec, data, res, pyimg, pybad)
+        res["valid_full"] = vf["valid"] if vf else None
+        out["bad"] = (vf["problems"] if vf and res["valid"] else []) + check_real(spec, data, res, pyimg, pybad)
         out["tree_read"] = res["tree"] not in ("SKIPPED", "NOREAD", None)
         out["stats"] = dict(inodes=inodes, bytes=len(data), nodes=len(res["nodes"]), valid=bool(res["valid"]),
                             frags=len(res["frags"] or []), ids=len(res["ids"] or []), export=res["export"] not in (None, "NOREAD"),
@@ -614,17 +635,43 @@ def small_entries(r, base):
     return ents
 
 
-def real_images(ctx, tools, drv, specs, tier):
+def real_images(ctx, tools, drv, specs, tier, drv_valid=None):
     t0 = time.time()
-    jobs = [(s, tools, drv, os.path.join(ctx.scratch, "image-real%04d" % i), TREE_BUDGET["quick" if tier == "quick" else "thorough"])
+    jobs = [(s, tools, drv, os.path.join(ctx.scratch, "image-real%04d" % i), TREE_BUDGET["quick" if tier == "quick" else "thorough"],
+             drv_valid, i, tier)
             for i, s in enumerate(specs)]
     with ProcessPoolExecutor(max_workers=12) as ex:
         results = list(ex.map(real_job, jobs, chunksize=1))
     st = dict(images=len(specs), valid=0, trees_read=0, trees_skipped=0, nodes_compared=0, inodes=0, bytes=0,
               with_fragments=0, with_export=0, with_xattrs=0, images_with_problems=0,
-              by_comp={}, by_tool={})
+              by_comp={}, by_tool={},
+              valid_full=dict(images=0, accepted=0, mutated_images=0, mutations={}, rejected_by_clause={}, oracle_problems=0,
+                              seconds=0.0))
     seen = set()
+    oseen = set()
     for spec, r in zip(specs, results):
+        vf = r.get("vfull")
+        if vf:
+            st["valid_full"]["images"] += 1
+            st["valid_full"]["accepted"] += bool(vf["valid"])
+            st["valid_full"]["seconds"] = round(st["valid_full"]["seconds"] + vf["t"], 2)
+            for name, clause in vf["mutations"]:
+                st["valid_full"]["mutated_images"] += 1
+                st["valid_full"]["mutations"][name] = st["valid_full"]["mutations"].get(name, 0) + 1
+                st["valid_full"]["rejected_by_clause"][str(clause)] = st["valid_full"]["rejected_by_clause"].get(str(clause), 0) + 1
+        for o in r.get("oracle") or []:
+            st["valid_full"]["oracle_problems"] += 1
+            cls = re.sub(r"[^A-Za-z]+", "-", re.sub(r"0x[0-9a-fA-F]+|[0-9]+", "N", o))[:60].strip("-")
+            sig = "valid-full-oracle:%s" % cls
+            if sig in oseen or len(oseen) >= 3:
+                continue
+            oseen.add(sig)
+            ctx.violation(sig, "valid_image_full stage (coq/ImgValid) on an image written by %s -c %s -b %d (%s tree): %s -- the "
+                          "validators disagree or a mutated image is not rejected; no image of the implementation that violates "
+                          "C03 was found" % (spec["tool"], spec["comp"], spec["bs"], spec["shape"], o),
+                          dict(kind="image-real", spec=spec, problems=r.get("oracle")[:8],
+                               correspondence="extracted ImgValid.valid_image_full = props/C03/validate_ext.py on real and mutated images"),
+                          no_input=True)
         st["by_comp"][spec["comp"]] = st["by_comp"].get(spec["comp"], 0) + 1
         st["by_tool"][spec["tool"]] = st["by_tool"].get(spec["tool"], 0) + 1
         if r["stats"]:
@@ -665,13 +712,13 @@ def build(B, core, info_asan, here):
     return h, drv
 
 
-def stage(ctx, h, drv, tools, toolgen, seed, tier):
+def stage(ctx, h, drv, tools, toolgen, seed, tier, drv_valid=None):
     """both parts; returns the statistics dict"""
     rnd = random.Random(seed * 104729 + 11)
     cases = exact_cases(rnd, tier)
     specs = real_specs(rnd, tier, toolgen)
     with ThreadPoolExecutor(max_workers=2) as ex:
         fa = ex.submit(exact_tie, ctx, h, drv, cases)
-        fb = ex.submit(real_images, ctx, tools, drv, specs, tier)
+        fb = ex.submit(real_images, ctx, tools, drv, specs, tier, drv_valid)
         a, b = fa.result(), fb.result()
     return dict(exact=a, real=b)
